@@ -60,6 +60,7 @@ def s_send(I, recv, args, kw):
 
 
 def s_sock_close(I, recv, args, kw):
+    I.st.ghost['SOCK_CLOSE_ATTEMPTED'] = I.st.ghost.get('SOCK_CLOSE_ATTEMPTED', 0) + 1
     if I.st.choice(2, 'sockclose') == 1:
         lib.raise_(I, 'OSError', VInt(core.fresh('errno', z3.IntSort())))
     I.st.write_field(recv.t, 'G_closed', VBool(True))
@@ -115,6 +116,10 @@ def _requires_open(I, fd, op):
 def s_addWriter(I, recv, args, kw):
     src, fd = args
     _requires_open(I, fd, 'addWriter')
+    # precondition of BasePoller.addWriter (C10): the registration lists are multisets without duplicates only if callers do not
+    # register a descriptor twice for the same role (a duplicate would survive one removeWriter and keep producing events)
+    I.oblige('poller.addWriter.requires.not_already_writing', z3.Not(z3.Select(I.field(recv, 'P_write').arr, fd.t)),
+             detail='addWriter for a descriptor that is already registered for writing')
     I.st.ghost.setdefault('POLLER_OPS', []).append(('addWriter', fd))
     _pset(I, recv, 'P_write', fd, True)
     return NONE
@@ -123,6 +128,8 @@ def s_addWriter(I, recv, args, kw):
 def s_addReader(I, recv, args, kw):
     src, fd = args
     _requires_open(I, fd, 'addReader')
+    I.oblige('poller.addReader.requires.not_already_reading', z3.Not(z3.Select(I.field(recv, 'P_read').arr, fd.t)),
+             detail='addReader for a descriptor that is already registered for reading')
     I.st.ghost.setdefault('POLLER_OPS', []).append(('addReader', fd))
     _pset(I, recv, 'P_read', fd, True)
     return NONE
@@ -430,6 +437,8 @@ def c12_close_post(I, outcome, ctx):
     for lbl, f in clean(I, self, sock):
         I.oblige('clean_after_close.' + lbl, z3.Implies(known, f))
     I.oblige('no_send', z3.BoolVal(len(I.st.ghost.get('SENDS', [])) == 0))
+    I.oblige('socket_closed', z3.Implies(known, z3.BoolVal(I.st.ghost.get('SOCK_CLOSE_ATTEMPTED', 0) >= 1)),
+             detail='_close of a connected socket must close the descriptor')
     I.oblige('only_disconnect_fired', z3.BoolVal(len(I.st.ghost.get('FIRED', [])) == nd))
     # frame: other sockets keep their state
     o = obj(I, 'other', 'socket')
@@ -673,6 +682,8 @@ def c11_close_post(I, outcome, ctx):
                                                       z3.Select(I.field(self, '_closeq').arr, sock.t) > 0))
     I.oblige('close_keeps_queued_bytes', z3.Implies(has_items, pending(I, self, sock) == pending(I, self, sock, pre)))
     I.oblige('close_sends_nothing', accepted(I, sock) == accepted(I, sock, pre))
+    I.oblige('close_with_nothing_queued_closes_now', z3.Implies(z3.Not(has_items), z3.BoolVal(len(closes) == 1)),
+             detail='close(sock) with an empty buffer must close the connection at once (nothing will drain later and trigger it)')
 
 
 SPECS.append(FucSpec('C11', 'circuits/net/sockets.py', 'Server.close', srv_close_handler_setup, c11_close_post, fields=SRV_FIELDS,
@@ -750,6 +761,7 @@ SPECS.append(FucSpec('C12', 'circuits/net/sockets.py', 'Server._read', any_setup
 def srv_accept_setup(I):
     self, sock = srv_objs(I)
     I.assume(z3.Not(in_clients(I, self, sock)), 'the accepted socket is new')
+    I.assume(clean_all(I, self, sock), 'the accepted socket is a fresh object: nothing is registered for it (and NoResidue keeps gone sockets clean)')
     return {'self': self, 'sock': sock}
 
 
@@ -826,6 +838,7 @@ def ep_send(I, recv, args, kw):
 
 def ep_handle_close(I, recv, args, kw):
     """socket/file object close(): marks the endpoint closed"""
+    I.st.ghost['HANDLE_CLOSE_ATTEMPTED'] = I.st.ghost.get('HANDLE_CLOSE_ATTEMPTED', 0) + 1
     if I.st.choice(2, 'sockclose') == 1:
         lib.raise_(I, 'OSError', VInt(core.fresh('errno', z3.IntSort())))
     I.st.write_field(I.local('self').t, 'G_closed', VBool(True))
@@ -1051,6 +1064,9 @@ def ep_close_handler_post(I, outcome, ctx):
     I.oblige('close_deferred_sets_flag', z3.Implies(b0.hi > b0.lo, I.fz(self, '_closeflag')))
     I.oblige('close_keeps_queued_bytes', z3.Implies(b0.hi > b0.lo, ep_pending(I, self) == ep_pending(I, self, pre)))
     I.oblige('close_sends_nothing', ep_acc(I, self) == ep_acc(I, self, pre))
+    # "close waits for the buffer" - and does not wait for anything else: with nothing queued the endpoint is closed at once
+    I.oblige('close_with_nothing_queued_closes_now', z3.Implies(b0.hi == b0.lo, z3.BoolVal(len(closes) == 1)),
+             detail='close() with an empty buffer must close the endpoint (otherwise it stays open for ever: nothing will drain later)')
 
 
 def ep__close_post(kind):
@@ -1076,6 +1092,11 @@ def ep__close_post(kind):
                                                             z3.Not(z3.Select(I.field(p, 'P_write').arr, h.t)))))
         b = I.field(self, '_buffer')
         I.oblige('buffer_cleared', z3.Implies(live, b.hi == b.lo))
+        closed_ok = I.st.ghost.get('HANDLE_CLOSE_ATTEMPTED', 0)
+        I.oblige('descriptor_closed', z3.Implies(live, z3.BoolVal(closed_ok >= 1)),
+                 detail='a live endpoint that is closed must close its descriptor (close() of the socket / file object is attempted once)')
+        I.oblige('close_request_forgotten', z3.Implies(live, z3.Not(I.fz(self, '_closeflag'))),
+                 detail='a pending close request does not survive the close (a re-opened endpoint would close itself after its first write)')
         if kind == 'Client':
             I.oblige('not_connected_afterwards', z3.Not(I.fz(self, '_connected')),
                      detail='so a second _close fires nothing: one disconnected per connected')
